@@ -124,6 +124,8 @@ MARKERS = {
         (9, r"lock_invalid_since\.get_or_insert\("),
         (10, r"if" + W + r"lock_err\.contains\(" + W + r'"lock json invalid"' + W + r"\)" + W + r"&&" + W + r"lock_invalid_since" + W + r"\.map\(" + W + r"\|since\|" + W + r"since\.elapsed\(\)" + W + r">" + W + r"std::time::Duration::from_secs\(1\)" + W + r"\)" + W + r"\.unwrap_or\(false\)" + W + r"\{"),
         (11, r"try_cleanup_corrupt_lock_file\("),
+        # any liveness probe other than the one of the lock's pid (e.g. a probe consulted before the ping)
+        (12, r"pid_liveness\(" + W + r"(?!lock\.pid" + W + r"\))"),
     ],
     "serve": [
         (1, r"acquire_authority_lock_with_recovery\("),
@@ -154,6 +156,8 @@ MARKERS = {
         (12, r"spawn_local_authority\("),
         (13, r"AuthorityLockGuard::try_acquire\("),
         (14, r"if" + W + r"ripd::authority_lock_path\(" + W + r"&data_dir" + W + r"\)\.exists\(\)" + W + r"\{"),
+        # any liveness probe of something else than meta.pid / lock.pid
+        (15, r"pid_liveness\(" + W + r"(?!(?:lock|meta)\.pid" + W + r"\))"),
     ],
 }
 
